@@ -82,6 +82,8 @@ type MidCrash struct {
 
 type World struct {
 	MidCrash *MidCrash
+	// Halted: the history left the domain of the properties (Tendermint itself stops the chain); the run ends without a verdict on later steps
+	Halted string
 	Cfg    Config
 	Nodes  []*hub.Node
 	Now    time.Time
@@ -158,7 +160,7 @@ func (w *World) Fail(prop, oracle, site, msg string) {
 	w.Logf("VIOLATION %s: %s", w.Viol.Signature(), msg)
 }
 
-func (w *World) Stopped() bool { return w.Viol != nil || w.Crash != nil }
+func (w *World) Stopped() bool { return w.Viol != nil || w.Crash != nil || w.Halted != "" }
 
 func tokensFromPower(p int64) sdk.Int { return sdk.NewInt(p).Mul(sdk.NewInt(1_000_000)) }
 
